@@ -123,6 +123,18 @@ def facts_path(repo=REPO, profile="dev"):
         lock.close()
 
 
+_SHORT_RE = None
+
+
+def short(s):
+    """strip module paths from a type / trait string: std::convert::From<&types::FourCC> -> From<&FourCC>"""
+    global _SHORT_RE
+    import re
+    if _SHORT_RE is None:
+        _SHORT_RE = re.compile(r"(?:[A-Za-z_][A-Za-z0-9_]*::)+")
+    return _SHORT_RE.sub("", s)
+
+
 class Facts:
     """Indexed view of one fact document."""
 
@@ -193,6 +205,28 @@ class Facts:
             if (tp == trait_suffix or tp.endswith("::" + trait_suffix)) and f["name"] == method and f["kind"] == "AssocFn":
                 out[im["self_ty"]] = f
         return out
+
+    def impl_fn(self, self_short, trait_short, name):
+        """the fn `name` in `impl <trait_short> for <self_short>` (module paths stripped: robust to moving items
+        between modules). trait_short None = inherent impl."""
+        out = []
+        for f in self.fns.values():
+            im = f.get("impl")
+            if not im or "self_ty" not in im or f["name"] != name or f["kind"] != "AssocFn":
+                continue
+            if short(im["self_ty"]) != self_short:
+                continue
+            t = im.get("trait")
+            if trait_short is None:
+                if t is None:
+                    out.append(f)
+            elif t is not None and short(t) == trait_short:
+                out.append(f)
+        return out[0] if len(out) == 1 else None
+
+    def adt_short(self, name):
+        r = [a for i, a in self.adts.items() if short(i) == name]
+        return r[0] if len(r) == 1 else None
 
     def adt_by_suffix(self, suffix):
         r = [a for i, a in self.adts.items() if i == suffix or i.endswith("::" + suffix)]
